@@ -12,6 +12,9 @@ mod ext {
     pub struct U256(pub [u128; 2]);
     // robustness shim (NO contract): narrowing conversions an edit might route a 256-bit length through
     impl U256 {
+        pub const ZERO: U256 = U256([0, 0]);
+        pub const ONE: U256 = U256([1, 0]);
+        pub const MAX: U256 = U256([u128::MAX, u128::MAX]);
         pub fn as_usize(&self) -> usize { unimplemented!() }
         pub fn as_u64(&self) -> u64 { unimplemented!() }
         pub fn as_u32(&self) -> u32 { unimplemented!() }
@@ -38,6 +41,16 @@ impl vstd::std_specs::cmp::PartialEqSpecImpl for U256 {
     open spec fn eq_spec(&self, other: &U256) -> bool { *self == *other }
 }
 pub assume_specification[ <U256 as core::cmp::PartialEq>::eq ](a: &U256, b: &U256) -> (r: bool);
+// robustness shim: the three named constants an edit might compare a length with; distinct uninterpreted values
+pub uninterp spec fn u256_zero() -> U256;
+pub uninterp spec fn u256_one() -> U256;
+pub uninterp spec fn u256_max() -> U256;
+pub assume_specification[ U256::ZERO ] -> (r: U256) ensures r == u256_zero();
+pub assume_specification[ U256::ONE ] -> (r: U256) ensures r == u256_one();
+pub assume_specification[ U256::MAX ] -> (r: U256) ensures r == u256_max();
+// robustness shim (A-STD): Option::or as core defines it
+pub assume_specification<T>[ Option::<T>::or ](a: Option<T>, b: Option<T>) -> (r: Option<T>)
+    ensures r == (if a is Some { a } else { b });
 // no contract: anything may come out of a narrowing conversion
 pub assume_specification[ U256::as_usize ](a: &U256) -> (r: usize);
 pub assume_specification[ U256::as_u64 ](a: &U256) -> (r: u64);
